@@ -196,7 +196,7 @@ pub fn run(ctx: &Ctx, rep: &mut Report) {
                     };
                     let dest_trusted = w.model.trusted.contains(&dest);
                     let dest_addr = rng.bytes_of(&[0, 1, 20, 33]);
-                    let data: Option<Vec<u8>> = if rng.chance(1, 3) { Some(rng.bytes_of(&[1, 32, 100])) } else { None };
+                    let data: Option<Vec<u8>> = if rng.chance(1, 3) { Some(rng.bytes_of(&[0, 1, 32, 100])) } else { None };
                     let unauth = rng.chance(1, 15);
                     let auth = if unauth { Auth::Nobody } else { Auth::Only(vec![user.clone()]) };
                     let refused = t.probe && probe_refuses;
@@ -330,12 +330,13 @@ pub fn run(ctx: &Ctx, rep: &mut Report) {
                     let with_data = rng.chance(1, 3);
                     let recipient = if with_data { w.app.clone() } else { users[rng.usize(users.len())].clone() };
                     let custody = w.model.balance(&t.addr, &w.its.clone());
-                    let aclass = *rng.pick(&["one", "custody", "custody+1", "random", "zero"]);
+                    let aclass = *rng.pick(&["one", "custody", "custody+1", "random", "zero", "huge"]);
                     let amount: i128 = match aclass {
                         "one" => 1,
                         "custody" => custody,
                         "custody+1" => custody + 1,
                         "zero" => 0,
+                        "huge" => (1i128 << 120) + rng.below(1000) as i128,
                         _ => 1 + rng.below(2000) as i128,
                     };
                     let trusted_list: Vec<Vec<u8>> = w.model.trusted.iter().cloned().collect();
